@@ -166,8 +166,17 @@ Bit(n, b) == (n \div b) % 2 = 1
 (* so that three quarters of the generated introspection documents stay comparable.                  *)
 DocFor(j, n) == IF j % 4 = 1 THEN Pick(Docs, n) ELSE Docs[(n % NDocsSafe) + 1]
 
+NMethods(j) == IF j % 8 = 6 THEN 2 ELSE 4
+NProps(j)   == (j + 1) % 5
+NSignals(j) == j % 3
+(* running numbers of the methods / properties / signals over all interfaces (dense, so that the    *)
+(* modular choices below cycle through their whole ranges whatever the counts per interface are)   *)
+MethodNo(j, i) == 4 * j - 2 * ((j + 1) \div 8) + i
+PropNo(j, i)   == 10 * (j \div 5) + (<<0, 1, 3, 6, 10>>)[(j % 5) + 1] + i
+SignalNo(j, i) == 3 * (j \div 3) + (<<0, 0, 1>>)[(j % 3) + 1] + i
+
 Method(j, i, seed) ==
-  LET x == j * 4 + i
+  LET x == MethodNo(j, i)
       fl == x * 3 + (x \div 8) + seed IN
   [name |-> MethodNames[i + 1].name, rust |-> MethodNames[i + 1].rust,
    ins |-> Pick(InLists, x + seed),
@@ -175,23 +184,20 @@ Method(j, i, seed) ==
    async |-> Bit(fl, 1), mut |-> Bit(fl, 2), fallible |-> Bit(fl, 4),
    doc |-> DocFor(j, x * 5 + seed)]
 
+(* type index y mod 5 and (access, emits) index y mod 12: all 60 combinations in 60 consecutive properties *)
 Prop(j, i, seed) ==
-  LET y  == j * 4 + i
-      ae == (y * 5 + (y \div 5) + seed) % 12 IN
+  LET y  == PropNo(j, i) + seed
+      ae == y % 12 IN
   [name |-> PropNames[i + 1].name, rust |-> PropNames[i + 1].rust,
-   ty |-> Pick(PropTypes, y + seed),
+   ty |-> Pick(PropTypes, y),
    access |-> Accesses[(ae % 3) + 1], emits |-> EmitModes[(ae \div 3) + 1],
-   async |-> Bit(y + seed, 1), mutset |-> Bit(y + seed, 2),
-   doc |-> DocFor(j, y * 3 + 1 + seed)]
+   async |-> Bit(y + (y \div 5), 1), mutset |-> Bit(y + (y \div 7), 2),
+   doc |-> DocFor(j, y * 3 + 1)]
 
 Signal(j, i, seed) ==
-  LET z == j * 2 + i IN
+  LET z == SignalNo(j, i) + seed IN
   [name |-> SignalNames[i + 1].name, rust |-> SignalNames[i + 1].rust,
-   args |-> Pick(SignalArgLists, z + seed), doc |-> DocFor(j, z + 2 + seed)]
-
-NMethods(j) == IF j % 8 = 6 THEN 2 ELSE 4
-NProps(j)   == (j + 1) % 5
-NSignals(j) == j % 3
+   args |-> Pick(SignalArgLists, z), doc |-> DocFor(j, z + 2)]
 
 IfaceShape(j, seed) ==
   [id |-> j, name |-> "org.verif.I" \o ToString(j), rust |-> "I" \o ToString(j),
